@@ -550,11 +550,16 @@ def every_member_is_asked(ctx: Ctx, rep: Report, rid: str = "R13.10") -> None:
         if f is None:
             continue
         scope.append(f)
-        for x in own_nodes(f.node):
-            if isinstance(x, ast.Call) and isinstance(x.func, ast.Attribute) and src(x.func.value) == "self" and x.func.attr.startswith("_") and f.cls is not None:
-                g = f.cls.lookup_method(x.func.attr)
-                if g is not None and g not in scope:
-                    scope.append(g)
+        # the private methods it asks, transitively (`__contains__` -> `_covers` -> `_in_any_item`)
+        work = [f]
+        while work:
+            h_ = work.pop()
+            for x in own_nodes(h_.node):
+                if isinstance(x, ast.Call) and isinstance(x.func, ast.Attribute) and src(x.func.value) == "self" and x.func.attr.startswith("_") and f.cls is not None:
+                    g = f.cls.lookup_method(x.func.attr)
+                    if g is not None and g not in scope:
+                        scope.append(g)
+                        work.append(g)
     for f in scope:
         for lp in [x for x in own_nodes(f.node) if isinstance(x, ast.For) and isinstance(x.target, ast.Name) and isinstance(x.iter, ast.Attribute) and x.iter.attr.lstrip("_") == "items" and src(x.iter.value) == "self"]:
             var = lp.target.id
